@@ -42,6 +42,30 @@ impl T {
     }
 }
 
+/// `Display` / `Debug` text of a value if its type implements the trait in this configuration, a marker otherwise
+/// (inherent methods bounded on the trait take precedence over the blanket fallback trait), so that a trait impl
+/// that exists only under some feature shows up as a differing transcript line instead of a harness build failure.
+struct Show<'a, T>(&'a T);
+trait ShowFallback {
+    fn disp(&self) -> String {
+        "<no Display impl in this configuration>".into()
+    }
+    fn dbg(&self) -> String {
+        "<no Debug impl in this configuration>".into()
+    }
+}
+impl<'a, T> ShowFallback for Show<'a, T> {}
+impl<'a, T: std::fmt::Display> Show<'a, T> {
+    fn disp(&self) -> String {
+        format!("{}", self.0)
+    }
+}
+impl<'a, T: std::fmt::Debug> Show<'a, T> {
+    fn dbg(&self) -> String {
+        format!("{:?}", self.0)
+    }
+}
+
 fn parse_text(s: &str, radix: u32) -> Option<Int> {
     let (neg, body) = match s.strip_prefix('-') {
         Some(r) => (true, r),
@@ -167,6 +191,27 @@ fn body(ctx: &mut Ctx) {
                 }
             }
         }
+    }
+    // ---- the error values of failed conversions and parses: their text is a formatting result too
+    {
+        use std::convert::TryFrom;
+        let neg = BigInt::from(-5);
+        let big = BigInt::from(bu(&[1, 2, 3]));
+        let e1 = BigUint::try_from(neg.clone()).unwrap_err();
+        t.line(ctx, false, Show(&e1).disp() == "out of range conversion regarding big integer attempted", format!("TryFromBigIntError<BigInt> display -> {}", Show(&e1).disp()));
+        t.line(ctx, false, true, format!("TryFromBigIntError<BigInt> debug -> {}", Show(&e1).dbg()));
+        t.line(ctx, false, e1.into_original() == neg, "TryFromBigIntError into_original".to_string());
+        let e2 = u64::try_from(&big).unwrap_err();
+        t.line(ctx, false, Show(&e2).disp() == "out of range conversion regarding big integer attempted", format!("TryFromBigIntError<()> display -> {}", Show(&e2).disp()));
+        let e3 = i8::try_from(big.clone()).unwrap_err();
+        t.line(ctx, false, true, format!("TryFromBigIntError<BigInt> (i8) display -> {} debug -> {}", Show(&e3).disp(), Show(&e3).dbg()));
+        let e4 = "".parse::<BigUint>().unwrap_err();
+        t.line(ctx, false, Show(&e4).disp() == "cannot parse integer from empty string", format!("ParseBigIntError(empty) display -> {} debug -> {}", Show(&e4).disp(), Show(&e4).dbg()));
+        let e5 = "12z".parse::<BigInt>().unwrap_err();
+        t.line(ctx, false, Show(&e5).disp() == "invalid digit found in string", format!("ParseBigIntError(invalid) display -> {} debug -> {}", Show(&e5).disp(), Show(&e5).dbg()));
+        let e6 = BigUint::from_str_radix("-1", 10).unwrap_err();
+        t.line(ctx, false, true, format!("ParseBigIntError(BigUint '-1') display -> {}", Show(&e6).disp()));
+        t.line(ctx, false, true, format!("Sign debug -> {} {} {}", Show(&Sign::Minus).dbg(), Show(&Sign::NoSign).dbg(), Show(&Sign::Plus).dbg()));
     }
     // ---- arithmetic cross-section
     {
